@@ -306,6 +306,7 @@ def run():
                 and sum(s[0] == 'L' for _, sl in spec for s in sl) <= env[2] and sum(len(sl) for _, sl in spec) <= env[3])
     signal.signal(signal.SIGVTALRM, _on_alarm)    # CPU-time alarm: a stalled machine cannot fire it
     stats = dict(specs=0, built=0, unconstructible=0, cyclic=0, shared=0)
+    alarms = 0
     for ei, (mn, width, ml, ms) in enumerate(envelopes):
         for spec in gen_specs(mn, width, ml, ms):
             if ei and any(fits(spec, e) for e in envelopes[:ei]):
@@ -325,8 +326,12 @@ def run():
                 H.fail('self_referential_terminates', 'remap', shape_class(root), spec_source(spec),
                        'no result within 1 s of CPU time',
                        HDR + spec_source(spec) + 'import signal\nsignal.alarm(5)\nremap(root)\nresearch(root)\n')
+                alarms += 1
             finally:
                 signal.setitimer(signal.ITIMER_VIRTUAL, 0)
+            if alarms >= 3:
+                H.note_truncated('enumeration stopped after 3 calls that did not terminate')
+                break
             if stats['built'] % 256 == 0 and H.out_of_time(0.85 if not T else 0.72):
                 H.note_truncated('enumeration stopped by time budget in envelope %d (max_nodes=%d) after %d structures'
                                  % (ei, mn, stats['built']))
